@@ -392,7 +392,8 @@ func (r *c07Run) run() {
 				}
 			}
 		case x < 76 && spec.Gov: // governance proposal of an fx message type
-			msgs, want := r.proposalMsgs(rng.IntN(9), reverter)
+			kind := rng.IntN(10)
+			msgs, want := r.proposalMsgs(kind, reverter)
 			// (in every second case only: once the escrow is short the case ends at the next refund)
 			spend := spec.Seed%2 == 0 && rng.IntN(6) == 0
 			selfDeposit := spend && rng.IntN(3) != 0
@@ -440,6 +441,9 @@ func (r *c07Run) run() {
 					if want == "gov-self-deposit-target" {
 						pat = []int{0, 2, 5, 6}[rng.IntN(4)]
 					}
+					if kind == 8 && want == "failed" {
+						pat = 6 // everybody votes yes for the unacceptable rules: it is their execution that has to fail
+					}
 					opts := []govv1.VoteOption{govv1.OptionYes, govv1.OptionNo, govv1.OptionAbstain, govv1.OptionNoWithVeto}
 					for vi, v := range c.Vals {
 						opt := govv1.OptionYes
@@ -467,6 +471,19 @@ func (r *c07Run) run() {
 					}
 				}
 				open = append(open, prop{id, want})
+				if kind == 8 && want == "failed" {
+					// followed at once by proposals of the two types the rules were meant for (tallied after them)
+					params, _ := c.App.GovKeeper.Params.Get(c.Ctx)
+					for _, k2 := range []int{0, 2} {
+						m2, w2 := r.proposalMsgs(k2, reverter)
+						if id2, res2 := fix.Propose(c, other, m2, params.MinDeposit, "p"); res2.OK() {
+							for _, v := range c.Vals {
+								fix.GovVote(c, v.Operator, id2, govv1.OptionYes)
+							}
+							open = append(open, prop{id2, w2})
+						}
+					}
+				}
 			}
 		case x < 82: // long idle: past voting / deposit periods and the signed window
 			if !r.block(time.Duration(1+rng.IntN(15)) * 24 * time.Hour) {
@@ -530,6 +547,19 @@ func (r *c07Run) proposalMsgs(k int, reverter common.Address) ([]sdk.Msg, string
 		return []sdk.Msg{&distrtypes.MsgCommunityPoolSpend{Authority: gov, Recipient: c.Users[2].Bech32(), Amount: sdk.NewCoins(chain.FXCoin(1))}}, "failed-or-passed"
 	case 7:
 		return []sdk.Msg{&fxgovtypes.MsgUpdateSwitchParams{Authority: gov, Params: fxgovtypes.SwitchParams{DisableMsgTypes: []string{sdk.MsgTypeURL(&banktypes.MsgMultiSend{})}}}}, "passed"
+	case 8: // per-type rules that must be refused (a later proposal of that type would be tallied with them)
+		bad := []string{"", "x", "-0.1", "1.5", "NaN"}[r.c.Height%5]
+		cp := fxgovtypes.NewCustomParams("0.1", time.Hour, "0.2")
+		url := sdk.MsgTypeURL(&crosschaintypes.MsgUpdateParams{})
+		switch r.c.Height % 3 {
+		case 0:
+			cp.Quorum = bad
+		case 1:
+			cp.DepositRatio = bad
+		default:
+			cp.Quorum, url = bad, sdk.MsgTypeURL(&erc20types.MsgToggleTokenConversion{})
+		}
+		return []sdk.Msg{&fxgovtypes.MsgUpdateCustomParams{Authority: gov, MsgUrl: url, CustomParams: *cp}}, "failed"
 	default:
 		return []sdk.Msg{&fxgovtypes.MsgUpdateCustomParams{Authority: gov, MsgUrl: sdk.MsgTypeURL(&banktypes.MsgSend{}), CustomParams: *fxgovtypes.NewCustomParams("0.1", time.Hour, "0.2")}}, "passed"
 	}
